@@ -185,7 +185,10 @@ class MaintenanceInfo:
             return None
         o = json.loads(json_string)
         ret = cls()
-        ret._set({k: MaintenanceEntry(**v) for (k, v) in o.items()})
+        # ignore entry fields this version does not know about (forward compatibility)
+        known = {f.name for f in dataclasses.fields(MaintenanceEntry)}
+        ret._set({k: MaintenanceEntry(**{fk: fv for fk, fv in v.items() if fk in known})
+                  for (k, v) in o.items()})
         ret.finalize()
         return ret
 
